@@ -1,6 +1,199 @@
-From Coq Require Import List NArith ZArith.
-From Vivid Require Import Codec.Prim Codec.PrimProofs Codec.Prim2 Codec.Prim2Proofs Codec.Reflect.
+(** C12, generic half — the primitive Writer and Reader of internal/messages (writer.go, reader.go) agree on
+    every supported Go type, and the reader consumes exactly the bytes the writer produced.
+    Statements only; every proof is [exact <lemma>] (lemmas in Codec/PrimProofs.v, Prim2Proofs.v,
+    ReflectProofs.v).  Model: Codec/Prim.v, Prim2.v, Reflect.v.
+
+    Vocabulary (Codec/Reflect.v): a Go value is a dynamic type [goty] with a payload [goval];
+    [has_typeb ty v] says the pair is a Go value (numbers within the width of their type, array length =
+    the type's length, ...); [supported ty]: unnamed basic types (uint8..uint64, int8..int64, float32/64 as
+    IEEE bit patterns, bool, string), slices (named or not), arrays of fewer than 2^32 elements and structs
+    of supported types, nested arbitrarily — unexported struct fields may have ANY type;
+    [fits ty v]: every string and slice in exported positions has fewer than 2^32 elements;
+    [write ty v] = Writer.Write(v); [read ty bs] = Reader.Read(&x) for a variable x of type ty: its first
+    component is the outcome (value, remaining input), the second a cost meter (see C13_reflect.v);
+    [norm ty v] = v with nil slices replaced by empty slices and unexported struct fields replaced by
+    zero values. *)
+From Coq Require Import List NArith ZArith Bool.
+From Vivid Require Import Codec.Prim Codec.PrimProofs Codec.Prim2 Codec.Prim2Proofs Codec.Reflect Codec.ReflectProofs.
+Import ListNotations.
 Local Open Scope N_scope.
-Theorem C12_reflect_stub n rest : n < 18446744073709551616 -> rd_uvarint (put_uvarint n ++ rest) = Ok (n, rest).
+
+(** ** every primitive pair, with its exact validity range; [rest] is arbitrary trailing input *)
+Theorem C12_prim_uint8 n rest : n < 256 -> rd_u8 (put_u8 n ++ rest) = Ok (n, rest).
+Proof. exact (rd_u8_put n rest). Qed.
+Theorem C12_prim_uint16 n rest : n < 65536 -> rd_u16 (put_u16 n ++ rest) = Ok (n, rest).
+Proof. exact (rd_u16_put n rest). Qed.
+Theorem C12_prim_uint32 n rest : n < 4294967296 -> rd_u32 (put_u32 n ++ rest) = Ok (n, rest).
+Proof. exact (rd_u32_put n rest). Qed.
+Theorem C12_prim_uint64 n rest : n < 18446744073709551616 -> rd_u64 (put_u64 n ++ rest) = Ok (n, rest).
+Proof. exact (rd_u64_put n rest). Qed.
+Theorem C12_prim_int8 z rest : (- 2 ^ 7 <= z < 2 ^ 7)%Z -> rd_i8 (put_i8 z ++ rest) = Ok (z, rest).
+Proof. exact (rd_i8_put z rest). Qed.
+Theorem C12_prim_int16 z rest : (- 2 ^ 15 <= z < 2 ^ 15)%Z -> rd_i16 (put_i16 z ++ rest) = Ok (z, rest).
+Proof. exact (rd_i16_put z rest). Qed.
+Theorem C12_prim_int32 z rest : (- 2 ^ 31 <= z < 2 ^ 31)%Z -> rd_i32 (put_i32 z ++ rest) = Ok (z, rest).
+Proof. exact (rd_i32_put z rest). Qed.
+Theorem C12_prim_int64 z rest : (- 2 ^ 63 <= z < 2 ^ 63)%Z -> rd_i64 (put_i64 z ++ rest) = Ok (z, rest).
+Proof. exact (rd_i64_put z rest). Qed.
+(** floats are their IEEE-754 bit patterns: every pattern (NaN payloads, signalling NaNs, -0) survives *)
+Theorem C12_prim_float32 bits rest : bits < 4294967296 -> rd_f32 (put_f32 bits ++ rest) = Ok (bits, rest).
+Proof. exact (rd_f32_put bits rest). Qed.
+Theorem C12_prim_float64 bits rest : bits < 18446744073709551616 -> rd_f64 (put_f64 bits ++ rest) = Ok (bits, rest).
+Proof. exact (rd_f64_put bits rest). Qed.
+Theorem C12_prim_bool b rest : rd_bool (put_bool b ++ rest) = Ok (b, rest).
+Proof. exact (rd_bool_put b rest). Qed.
+(** WriteString/ReadString and []byte: 4-byte length *)
+Theorem C12_prim_string s rest : N.of_nat (length s) < 4294967296 -> rd_string (put_string s ++ rest) = Ok (s, rest).
+Proof. exact (rd_lp4_put s rest). Qed.
+(** WriteShortString/ReadShortString: whenever the writer accepts the string (at most 255 bytes) *)
+Theorem C12_prim_short_string s w rest : put_short s = Ok w -> rd_short (w ++ rest) = Ok (s, rest).
+Proof. exact (rd_lp_put 1 s w rest). Qed.
+Theorem C12_prim_short_string_accepts s : N.of_nat (length s) < 256 -> exists w, put_short s = Ok w.
+Proof. exact (put_lp_ok 1 s). Qed.
+(** WriteBytesWithLength(v, size)/ReadBytesWithLength(size) for every int [size]: whenever the writer succeeds *)
+Theorem C12_prim_bytes_with_length size b w rest :
+  N.of_nat (length b) < 4294967296 -> put_lpk size b = Ok w -> rd_lpk size (w ++ rest) = Ok (b, rest).
+Proof. exact (rd_lpk_put size b w rest). Qed.
+(** WriteUvarint/ReadUvarint (encoding/binary): all of uint64; 1 to 10 bytes *)
+Theorem C12_prim_uvarint n rest : n < 18446744073709551616 -> rd_uvarint (put_uvarint n ++ rest) = Ok (n, rest).
 Proof. exact (rd_uvarint_put n rest). Qed.
-Print Assumptions C12_reflect_stub.
+Theorem C12_prim_uvarint_length n : (1 <= length (put_uvarint n) <= 10)%nat.
+Proof. exact (put_uvarint_length n). Qed.
+(** WriteVarint/ReadVarint (zig-zag): all of int64 *)
+Theorem C12_prim_varint z rest : (- 2 ^ 63 <= z < 2 ^ 63)%Z -> rd_varint (put_varint z ++ rest) = Ok (z, rest).
+Proof. exact (rd_varint_put z rest). Qed.
+
+(** ** Write / Read: every value of every supported type, nested arbitrarily.  The decoded value is
+    [norm ty v]; the reader stops exactly where the writer stopped ([rest] is returned untouched). *)
+Theorem C12_reflect ty v :
+  supported ty = true -> has_typeb ty v = true -> fits ty v = true ->
+  exists b, write ty v = OOk b /\ forall rest, fst (read ty (b ++ rest)) = OOk (norm ty v, rest).
+Proof. exact (roundtrip ty v). Qed.
+(** the hypotheses are satisfiable by a nested value with an unexported field, a nil slice, a named slice,
+    NaN / -0 float patterns and zero-size elements (on which [norm] is not the identity) *)
+Example C12_reflect_example :
+  supported ex_ty = true /\ has_typeb ex_ty ex_val = true /\ fits ex_ty ex_val = true /\ norm ex_ty ex_val <> ex_val.
+Proof. exact ex_ok. Qed.
+
+(** the normalisation is the identity on values without nil slices whose struct fields are all exported *)
+Theorem C12_reflect_exact ty v : canonical ty v = true -> norm ty v = v.
+Proof. exact (fun H => norm_canonical v ty H). Qed.
+Example C12_reflect_exact_example :
+  canonical (TSlice false (TStruct [(true, TBasic BStr); (true, TArray 1 (TBasic BI64))])) (VList [VStruct [VS [65]; VList [VZ (-7)]]]) = true.
+Proof. reflexivity. Qed.
+
+(** the reflective writer (what Write reaches for struct fields and elements) writes the same bytes *)
+Theorem C12_write_is_writeReflect ty v : supported ty = true -> has_typeb ty v = true -> write ty v = wrefl ty v.
+Proof. exact (write_eq_wrefl ty v). Qed.
+
+(** WriteFrom(a...) / ReadInto(&a...) over supported types, for every list: covers every user
+    reader/writer pair registered with RegisterCustomMessage that is built from these two calls *)
+Theorem C12_schema l :
+  forallb (fun p => supported (fst p) && has_typeb (fst p) (snd p) && fits (fst p) (snd p)) l = true ->
+  exists b, write_from l = OOk b /\
+            forall rest, fst (read_into (map fst l) (b ++ rest)) = OOk (map (fun p => norm (fst p) (snd p)) l, rest).
+Proof. exact (roundtrip_list l). Qed.
+Example C12_schema_example :
+  forallb (fun p => supported (fst p) && has_typeb (fst p) (snd p) && fits (fst p) (snd p))
+          [(TBasic BStr, VS [1; 2]); (ex_ty, ex_val); (TArray 2 (TBasic BBool), VList [VB true; VB false])] = true.
+Proof. vm_compute. reflexivity. Qed.
+
+(** Write(&x) writes what Write(x) writes, for the twelve basic types and []byte (nil *[]byte = empty) *)
+Theorem C12_write_pointer b v : write (TPtr (TBasic b)) (VPtr v) = write (TBasic b) v.
+Proof. exact (eq_refl (wprim b v)). Qed.
+
+(** ** values and types EXCLUDED from the round trip, each with its witness *)
+(** a nil slice comes back as an empty non-nil slice *)
+Theorem C12_nil_slice_refuted : exists ty v b v', supported ty = true /\ has_typeb ty v = true /\ fits ty v = true /\
+  write ty v = OOk b /\ fst (read ty b) = OOk (v', []) /\ v = VNil /\ v' = VList [].
+Proof. exact w_nil_slice. Qed.
+(** unexported struct fields are not transmitted: they come back as zero values *)
+Theorem C12_unexported_field_refuted : exists ty v b v', supported ty = true /\ has_typeb ty v = true /\ fits ty v = true /\
+  write ty v = OOk b /\ fst (read ty b) = OOk (v', []) /\ v = VStruct [VZ 5; VN 1] /\ v' = VStruct [VZ 0; VN 1].
+Proof. exact w_unexported. Qed.
+(** a string or []byte of 2^32 bytes or more: the length prefix is uint32(len), the reader cannot return it *)
+Theorem C12_string_2pow32_refuted s rest : 4294967296 <= N.of_nat (length s) -> rd_string (put_string s ++ rest) <> Ok (s, rest).
+Proof. exact (string_too_long s rest). Qed.
+(** a slice of 2^32 or more elements announces its length modulo 2^32 *)
+Theorem C12_slice_length_wraps nm e l :
+  wrefl (TSlice nm e) (VList l) = obind (wlist e l) (fun b => OOk (put_u32 (N.of_nat (length l) mod 4294967296) ++ b)).
+Proof. exact (wrefl_length_wraps nm e l). Qed.
+(** an array type of 2^32 or more elements is never read (the uint32 on the wire cannot equal its length) *)
+Theorem C12_array_2pow32_refuted n e bs : 4294967296 <= n -> wf_bytes bs = true -> forall v r, fst (read (TArray n e) bs) <> OOk (v, r).
+Proof. exact (array_too_long n e bs). Qed.
+(** a pointer field is written (dereferenced) but its type cannot be read *)
+Theorem C12_pointer_field_refuted : exists ty v b, has_typeb ty v = true /\ write ty v = OOk b /\ fst (read ty b) = OErr EUnsupported
+  /\ ty = TStruct [(true, TPtr (TBasic BI8))] /\ v = VStruct [VPtr (VZ 5)].
+Proof. exact w_pointer_field. Qed.
+(** a nil pointer in an exported field: the writer fails *)
+Theorem C12_nil_pointer_field_refuted : exists ty v, has_typeb ty v = true /\ write ty v = OErr EInvalid
+  /\ ty = TStruct [(true, TBasic BU8); (true, TPtr (TBasic BI8))] /\ v = VStruct [VN 1; VNil].
+Proof. exact w_nil_pointer_field. Qed.
+(** an interface field is written as its dynamic value but cannot be read *)
+Theorem C12_interface_field_refuted : exists ty v b, has_typeb ty v = true /\ write ty v = OOk b /\ fst (read ty b) = OErr EUnsupported
+  /\ ty = TStruct [(true, TIface)] /\ v = VStruct [VIface (TBasic BI32) (VZ 3)].
+Proof. exact w_iface_field. Qed.
+(** a pointer to an interface is written only if the interface holds an unnamed basic value; a struct field
+    of interface type is written for every dynamic type *)
+Theorem C12_pointer_to_interface :
+  write (TPtr TIface) (VPtr (VIface (TBasic BI32) (VZ 5))) = OOk [0; 0; 0; 5]
+  /\ write (TPtr TIface) (VPtr (VIface (TStruct []) (VStruct []))) = OErr EUnsupported
+  /\ write (TStruct [(true, TIface)]) (VStruct [VIface (TStruct []) (VStruct [])]) = OOk [].
+Proof. exact w_ptr_iface. Qed.
+(** named basic types, int, uint, map, chan, func, nil interface, nil pointers (other than the type switch's
+    own pointer cases), pointer and interface targets: rejected by writer and/or reader with an error *)
+Theorem C12_unsupported_kinds :
+  (forall b v, basic_ok b v = true -> write (TNamed b) v = OErr EUnsupported /\ forall bs, fst (read (TNamed b) bs) = OErr EUnsupported) /\
+  (forall z, write TInt (VZ z) = OErr EUnsupported /\ forall bs, fst (read TInt bs) = OErr EUnsupported) /\
+  (forall n, write TUint (VN n) = OErr EUnsupported /\ forall bs, fst (read TUint bs) = OErr EUnsupported) /\
+  (forall v, v = VNil \/ v = VOpaque -> write TMap v = OErr EUnsupported /\ write TChan v = OErr EUnsupported /\ write TFunc v = OErr EUnsupported) /\
+  write TIface VNil = OErr EUnsupported /\
+  (forall t, (forall b, t <> TBasic b) -> t <> TSlice false (TBasic BU8) -> write (TPtr t) VNil = OErr EInvalid) /\
+  (forall t bs, fst (read (TPtr t) bs) = OErr EUnsupported) /\ (forall bs, fst (read TIface bs) = OErr EUnsupported).
+Proof. exact unsupported_kinds. Qed.
+(** 1- and 2-byte length prefixes: longer data is refused by the writer; other sizes are refused by both *)
+Theorem C12_length_prefix_too_long k b : 256 ^ N.of_nat k <= N.of_nat (length b) -> put_lp k b = Err ETooLarge.
+Proof. exact (put_lp_err k b). Qed.
+Theorem C12_length_size_invalid size b bs : size <> 1%Z -> size <> 2%Z -> size <> 4%Z ->
+  put_lpk size b = Err EInvalid /\ rd_lpk size bs = Err EInvalid.
+Proof. exact (fun H1 H2 H4 => conj (put_lpk_invalid size b H1 H2 H4) (rd_lpk_invalid size bs H1 H2 H4)). Qed.
+(** the reader accepts encodings the writer never produces: any non-zero byte is true; non-minimal uvarints *)
+Theorem C12_noncanonical_accepted : fst (read (TBasic BBool) [2]) = OOk (VB true, []) /\ rd_uvarint [128; 0] = Ok (0, []) /\ put_uvarint 0 = [0].
+Proof. exact w_noncanonical. Qed.
+
+Print Assumptions C12_prim_uint8.
+Print Assumptions C12_prim_uint16.
+Print Assumptions C12_prim_uint32.
+Print Assumptions C12_prim_uint64.
+Print Assumptions C12_prim_int8.
+Print Assumptions C12_prim_int16.
+Print Assumptions C12_prim_int32.
+Print Assumptions C12_prim_int64.
+Print Assumptions C12_prim_float32.
+Print Assumptions C12_prim_float64.
+Print Assumptions C12_prim_bool.
+Print Assumptions C12_prim_string.
+Print Assumptions C12_prim_short_string.
+Print Assumptions C12_prim_short_string_accepts.
+Print Assumptions C12_prim_bytes_with_length.
+Print Assumptions C12_prim_uvarint.
+Print Assumptions C12_prim_uvarint_length.
+Print Assumptions C12_prim_varint.
+Print Assumptions C12_reflect.
+Print Assumptions C12_reflect_exact.
+Print Assumptions C12_write_is_writeReflect.
+Print Assumptions C12_schema.
+Print Assumptions C12_write_pointer.
+Print Assumptions C12_nil_slice_refuted.
+Print Assumptions C12_unexported_field_refuted.
+Print Assumptions C12_string_2pow32_refuted.
+Print Assumptions C12_slice_length_wraps.
+Print Assumptions C12_array_2pow32_refuted.
+Print Assumptions C12_pointer_field_refuted.
+Print Assumptions C12_nil_pointer_field_refuted.
+Print Assumptions C12_interface_field_refuted.
+Print Assumptions C12_pointer_to_interface.
+Print Assumptions C12_unsupported_kinds.
+Print Assumptions C12_length_prefix_too_long.
+Print Assumptions C12_length_size_invalid.
+Print Assumptions C12_noncanonical_accepted.
